@@ -62,6 +62,9 @@ type CheckCfg struct {
 	Quick      TierCfg           `json:"quick"`
 	Thorough   TierCfg           `json:"thorough"`
 	Workers    int               `json:"workers"`
+	Also       []string          `json:"also"`   // further harness ids run as part of this check (their classes count for this property)
+	Parent     string            `json:"parent"` // set in a sub-harness: the property id it reports for
+	Selects    []string          `json:"selects"` // globs of files whose multi-case selects are determinised
 	NetShim    []string          `json:"netshim"` // globs of files whose "net" import is swapped
 	TimeShim   []string          `json:"timeshim"`
 	Extra      map[string]string `json:"extra_imports"` // import path -> replacement, applied to Instrument files
@@ -213,6 +216,12 @@ func build(cfg *CheckCfg) (*buildOut, error) {
 			timeshim[f] = true
 		}
 	}
+	selr := map[string]bool{}
+	for _, g := range cfg.Selects {
+		for _, f := range glob(g) {
+			selr[f] = true
+		}
+	}
 	mapr := map[string]bool{}
 	for _, g := range cfg.MapRanges {
 		for _, f := range glob(g) {
@@ -221,7 +230,7 @@ func build(cfg *CheckCfg) (*buildOut, error) {
 	}
 	seen := map[string]bool{}
 	var files []string
-	for _, g := range append(append(append([]string{}, cfg.Instrument...), cfg.NetShim...), cfg.MapRanges...) {
+	for _, g := range append(append(append(append([]string{}, cfg.Instrument...), cfg.NetShim...), cfg.MapRanges...), cfg.Selects...) {
 		for _, f := range glob(g) {
 			if !seen[f] {
 				seen[f] = true
@@ -247,7 +256,7 @@ func build(cfg *CheckCfg) (*buildOut, error) {
 		if err != nil {
 			return nil, err
 		}
-		out, st, err := instrument(f, src, instOpts{net: netshim[f], time: timeshim[f], mapRanges: mapr[f], mapSites: sites[f], extra: cfg.Extra})
+		out, st, err := instrument(f, src, instOpts{net: netshim[f], time: timeshim[f], mapRanges: mapr[f], mapSites: sites[f], selects: selr[f], extra: cfg.Extra})
 		if err != nil {
 			return nil, fmt.Errorf("instrument %s: %v", f, err)
 		}
@@ -392,6 +401,8 @@ type workerResult struct {
 	block  int
 	stderr string
 	crash  *ViolationReport
+	cfg    *CheckCfg
+	bo     *buildOut
 }
 
 // crashOf inspects the output of a worker that died. A panic (or fatal error)
@@ -555,6 +566,62 @@ func isKnown(fs []finding, id, class string) bool {
 	return false
 }
 
+// campaign runs seed blocks of one harness on cfg.Workers single-P worker
+// processes until its budget or run count is used up.
+func campaign(cfg *CheckCfg, bo *buildOut, tier string, seed uint64, tc TierCfg, findings []finding, id string, stop *bool, blocks *int) []workerResult {
+	deadline := time.Now().Add(time.Duration(tc.BudgetS) * time.Second)
+	var mu sync.Mutex
+	nextBlock := 0
+	var results []workerResult
+	var wg sync.WaitGroup
+	for w := 0; w < cfg.Workers; w++ {
+		wg.Add(1)
+		go func() {
+			defer wg.Done()
+			for {
+				mu.Lock()
+				b := nextBlock
+				if *stop || b*tc.Block >= tc.MaxRuns || time.Now().After(deadline) {
+					mu.Unlock()
+					return
+				}
+				nextBlock++
+				mu.Unlock()
+				runs := tc.Block
+				if (b+1)*tc.Block > tc.MaxRuns {
+					runs = tc.MaxRuns - b*tc.Block
+				}
+				left := time.Until(deadline)
+				if left < time.Second {
+					left = time.Second
+				}
+				base := seed<<32 + uint64(b*tc.Block)
+				wr := runWorker(bo, cfg, "run", tier, base, runs, left, b)
+				wr.cfg, wr.bo = cfg, bo
+				mu.Lock()
+				results = append(results, wr)
+				if wr.err != "" {
+					*stop = true
+				}
+				if wr.crash != nil && !isKnown(findings, id, wr.crash.Class) && tier != "thorough" {
+					*stop = true
+				}
+				if wr.sum != nil && tier != "thorough" {
+					for _, v := range wr.sum.Violations {
+						if !isKnown(findings, id, v.Class) {
+							*stop = true // a new violation: no need to spend the rest of the budget
+						}
+					}
+				}
+				mu.Unlock()
+			}
+		}()
+	}
+	wg.Wait()
+	*blocks += nextBlock
+	return results
+}
+
 func runCheck(id, tier string) int {
 	t0 := time.Now()
 	cfg := loadCfg(id)
@@ -575,63 +642,59 @@ func runCheck(id, tier string) int {
 	if tc.Block == 0 {
 		tc.Block = 2000
 	}
-	bo, err := build(cfg)
-	if err != nil {
-		fatal2("%s: %v", id, err)
-	}
-	os.MkdirAll(bo.replays, 0o755)
-
 	findings := loadFindings()
-	deadline := time.Now().Add(time.Duration(tc.BudgetS) * time.Second)
-	var mu sync.Mutex
-	nextBlock := 0
 	var results []workerResult
-	var wg sync.WaitGroup
-	stop := false
-	for w := 0; w < cfg.Workers; w++ {
-		wg.Add(1)
-		go func() {
-			defer wg.Done()
-			for {
-				mu.Lock()
-				b := nextBlock
-				if stop || b*tc.Block >= tc.MaxRuns || time.Now().After(deadline) {
-					mu.Unlock()
-					return
-				}
-				nextBlock++
-				mu.Unlock()
-				runs := tc.Block
-				if (b+1)*tc.Block > tc.MaxRuns {
-					runs = tc.MaxRuns - b*tc.Block
-				}
-				left := time.Until(deadline)
-				if left < time.Second {
-					left = time.Second
-				}
-				base := seed<<32 + uint64(b*tc.Block)
-				wr := runWorker(bo, cfg, "run", tier, base, runs, left, b)
-				mu.Lock()
-				results = append(results, wr)
-				if wr.err != "" {
-					stop = true
-				}
-				if wr.crash != nil && !isKnown(findings, id, wr.crash.Class) && tier != "thorough" {
-					stop = true
-				}
-				if wr.sum != nil && tier != "thorough" {
-					for _, v := range wr.sum.Violations {
-						if !isKnown(findings, id, v.Class) {
-							stop = true // a new violation: no need to spend the rest of the budget
-						}
-					}
-				}
-				mu.Unlock()
-			}
-		}()
+	var bo *buildOut
+	nextBlock := 0
+	totalBuildS := 0.0
+	instr := map[string]int{}
+	cfgs := []*CheckCfg{cfg}
+	for _, a := range cfg.Also {
+		cfgs = append(cfgs, loadCfg(a))
 	}
-	wg.Wait()
-	sort.Slice(results, func(i, j int) bool { return results[i].block < results[j].block })
+	stop := false
+	for ci, ccfg := range cfgs {
+		ctc := tc
+		if ci > 0 {
+			ctc = ccfg.Quick
+			if tier == "thorough" {
+				ctc = ccfg.Thorough
+			}
+			if v := os.Getenv("VERIF_BUDGET_S"); v != "" {
+				n, _ := strconv.Atoi(v)
+				ctc.BudgetS = n / len(cfgs)
+			}
+			if ctc.BudgetS == 0 {
+				ctc.BudgetS = 15
+			}
+			if ctc.MaxRuns == 0 {
+				ctc.MaxRuns = 1 << 30
+			}
+			if ctc.Block == 0 {
+				ctc.Block = 2000
+			}
+		} else if os.Getenv("VERIF_BUDGET_S") != "" && len(cfgs) > 1 {
+			ctc.BudgetS = ctc.BudgetS / len(cfgs)
+		}
+		cbo, err := build(ccfg)
+		if err != nil {
+			fatal2("%s: %v", ccfg.ID, err)
+		}
+		os.MkdirAll(cbo.replays, 0o755)
+		totalBuildS += cbo.buildS
+		for k, v := range cbo.instrN {
+			instr[k] += v
+		}
+		if ci == 0 {
+			bo = cbo
+		}
+		if stop {
+			break
+		}
+		results = append(results, campaign(ccfg, cbo, tier, seed, ctc, findings, id, &stop, &nextBlock)...)
+	}
+	bo = &buildOut{bin: bo.bin, dir: bo.dir, pkgDir: bo.pkgDir, instrN: instr, buildS: totalBuildS, replays: bo.replays}
+	sort.SliceStable(results, func(i, j int) bool { return results[i].block < results[j].block })
 
 	// merge
 	tot := &Summary{Outcomes: map[string]int{}, Probes: map[string]int{}, Faults: map[string]int{}, Strategies: map[string]int{}}
@@ -639,6 +702,7 @@ func runCheck(id, tier string) int {
 	distinctSc := map[uint64]struct{}{}
 	var infra []string
 	classes := map[string]*ViolationReport{}
+	classFrom := map[string]workerResult{}
 	var classOrder []string
 	for _, wr := range results {
 		for _, h := range wr.hung {
@@ -654,7 +718,14 @@ func runCheck(id, tier string) int {
 		tot.Stalls += s.Stalls
 		tot.SimNs += s.SimNs
 		tot.Nontrivial += s.Nontrivial
-		tot.Rule, tot.Real, tot.Stub, tot.Assume = s.Rule, s.Real, s.Stub, s.Assume
+		if wr.cfg == nil || wr.cfg.ID == id || tot.Rule == "" {
+			tot.Rule, tot.Real, tot.Stub, tot.Assume = s.Rule, s.Real, s.Stub, s.Assume
+		} else if !strings.Contains(tot.Rule, "["+wr.cfg.ID+"]") {
+			tot.Rule += " || [" + wr.cfg.ID + "] " + s.Rule
+			tot.Real = append(tot.Real, s.Real...)
+			tot.Stub = append(tot.Stub, s.Stub...)
+			tot.Assume = append(tot.Assume, s.Assume...)
+		}
 		for k, v := range s.Outcomes {
 			tot.Outcomes[k] += v
 		}
@@ -691,6 +762,7 @@ func runCheck(id, tier string) int {
 				continue
 			}
 			classes[v.Class] = &v
+			classFrom[v.Class] = wr
 			classOrder = append(classOrder, v.Class)
 		}
 	}
@@ -716,7 +788,7 @@ func runCheck(id, tier string) int {
 			continue
 		}
 		// confirm by replaying in a fresh process
-		rep := replayFile(bo, cfg, v.Replay)
+		rep := replayFile(classFrom[cl].bo, classFrom[cl].cfg, v.Replay)
 		replayInfo[cl] = rep
 		fmt.Printf("VIOLATION property=%s replay=%s\n", id, v.Replay)
 		fmt.Printf("  class=%s seed=%d count=%d replay_reproduced=%v same_hash=%v\n  %s\n", cl, v.Seed, v.Count, rep["reproduced"], rep["same_hash"], firstLines(v.Msg, 12))
@@ -854,7 +926,11 @@ func replay(path string) int {
 	jb, _ := json.MarshalIndent(res, "", " ")
 	fmt.Println(string(jb))
 	if res["reproduced"] == true {
-		fmt.Printf("VIOLATION property=%s replay=%s\n", rf.Property, abs)
+		prop := rf.Property
+		if cfg.Parent != "" {
+			prop = cfg.Parent
+		}
+		fmt.Printf("VIOLATION property=%s replay=%s\n", prop, abs)
 		return 1
 	}
 	fmt.Printf("replay of %s: violation class %s did not occur on this tree\n", abs, rf.Class)
